@@ -207,4 +207,339 @@ theorem run_good : ∀ (n : Nat) (s : Script) (c : Cfg) (hs : List (List Var)),
         · exact ih _ _ hs hc hk.1.1 hst
         · exact ih _ _ hs hc hk.1.2 hst
 
+/-! ## number level -/
+
+theorem cnt_le (t : List Nat) (n : Nat) :
+    (t.filter (fun x => decide (n + 1 ≤ x))).length ≤ (t.filter (fun x => decide (n ≤ x))).length := by
+  induction t with
+  | nil => simp
+  | cons a r ih =>
+    simp only [List.filter_cons]
+    by_cases h1 : n + 1 ≤ a
+    · have h2 : n ≤ a := by omega
+      simp [h1, h2]; exact ih
+    · by_cases h2 : n ≤ a
+      · simp [h1, h2]; omega
+      · simp [h1, h2]; exact ih
+
+theorem cnt_lt (t : List Nat) (n : Nat) (h : n ∈ t) :
+    (t.filter (fun x => decide (n + 1 ≤ x))).length < (t.filter (fun x => decide (n ≤ x))).length := by
+  induction t with
+  | nil => cases h
+  | cons a r ih =>
+    simp only [List.filter_cons]
+    by_cases hna : n = a
+    · subst hna
+      have := cnt_le r n
+      have h1 : ¬ (n + 1 ≤ n) := by omega
+      simp [h1]; omega
+    · have hr : n ∈ r := by
+        cases h with
+        | head => exact absurd rfl hna
+        | tail _ h => exact h
+      have := ih hr
+      by_cases h1 : n + 1 ≤ a
+      · have h2 : n ≤ a := by omega
+        simp [h1, h2]; exact this
+      · by_cases h2 : n ≤ a
+        · exfalso; omega
+        · simp [h1, h2]; exact this
+
+theorem lfGo_not_mem (t : List Nat) : ∀ (f n : Nat),
+    (t.filter (fun x => decide (n ≤ x))).length ≤ f → lfGo t f n ∉ t := by
+  intro f
+  induction f with
+  | zero =>
+    intro n h hm
+    simp only [lfGo] at hm
+    have : n ∈ t.filter (fun x => decide (n ≤ x)) := by simp [hm]
+    have h0 : t.filter (fun x => decide (n ≤ x)) = [] := List.eq_nil_of_length_eq_zero (by omega)
+    rw [h0] at this
+    cases this
+  | succ f ih =>
+    intro n h
+    simp only [lfGo]
+    by_cases hc : t.contains n = true
+    · simp only [hc, if_true]
+      apply ih
+      have := cnt_lt t n (by simpa using hc)
+      omega
+    · simp only [hc]
+      simpa using hc
+
+/-- the number handed out is free ... -/
+theorem lowestFree_not_mem (t : List Nat) : lowestFree t ∉ t := by
+  apply lfGo_not_mem
+  exact List.length_filter_le _ _
+
+theorem lfGo_least (t : List Nat) : ∀ (f n m : Nat), n ≤ m → m < lfGo t f n → m ∈ t := by
+  intro f
+  induction f with
+  | zero => intro n m h1 h2; simp only [lfGo] at h2; omega
+  | succ f ih =>
+    intro n m h1 h2
+    simp only [lfGo] at h2
+    by_cases hc : t.contains n = true
+    · simp only [hc, if_true] at h2
+      by_cases hmn : m = n
+      · subst hmn; simpa using hc
+      · exact ih (n + 1) m (by omega) h2
+    · simp only [hc] at h2
+      exfalso
+      simp at h2
+      omega
+
+/-- ... and it is the lowest free one -/
+theorem lowestFree_least (t : List Nat) (m : Nat) (h : m < lowestFree t) : m ∈ t :=
+  lfGo_least t t.length 0 m (Nat.zero_le _) h
+
+theorem map_fst_unbind (b : List Binding) (v : Var) :
+    (unbind b v).map Prod.fst = (b.map Prod.fst).erase v := by
+  induction b with
+  | nil => simp [unbind]
+  | cons e r ih =>
+    obtain ⟨w, m⟩ := e
+    by_cases h : w = v
+    · subst h; simp [unbind]
+    · simp [unbind, h, ih]
+
+theorem lookupB_none (b : List Binding) (v : Var) (h : v ∉ b.map Prod.fst) : lookupB b v = none := by
+  induction b with
+  | nil => simp [lookupB]
+  | cons e r ih =>
+    obtain ⟨w, m⟩ := e
+    simp only [List.map_cons, List.mem_cons, not_or] at h
+    simp only [lookupB]
+    rw [if_neg (fun e => h.1 e.symm)]
+    exact ih h.2
+
+theorem lookupB_mem (b : List Binding) (v : Var) (h : v ∈ b.map Prod.fst) : ∃ m, lookupB b v = some m := by
+  induction b with
+  | nil => cases h
+  | cons e r ih =>
+    obtain ⟨w, m⟩ := e
+    by_cases hw : w = v
+    · exact ⟨m, by simp [lookupB, hw]⟩
+    · simp only [List.map_cons, List.mem_cons] at h
+      cases h with
+      | inl h => exact absurd h.symm hw
+      | inr h =>
+        obtain ⟨m', hm⟩ := ih h
+        exact ⟨m', by simp [lookupB, hw, hm]⟩
+
+theorem lookupB_num_mem (b : List Binding) (v : Var) (n : Nat) (h : lookupB b v = some (some n)) : n ∈ numsOf b := by
+  induction b with
+  | nil => simp [lookupB] at h
+  | cons e r ih =>
+    obtain ⟨w, m⟩ := e
+    simp only [lookupB] at h
+    by_cases hw : w = v
+    · simp only [hw, if_true, Option.some.injEq] at h
+      subst h
+      simp [numsOf]
+    · simp only [hw, if_false] at h
+      cases m with
+      | none => simp only [numsOf]; exact ih h
+      | some k => simp only [numsOf, List.mem_cons]; exact Or.inr (ih h)
+
+theorem numsOf_unbind_some (T : List Nat) (b : List Binding) (v : Var) (n : Nat)
+    (hn : (numsOf b ++ T).Nodup) (h : lookupB b v = some (some n)) :
+    numsOf (unbind b v) ++ T = (numsOf b ++ T).erase n := by
+  induction b with
+  | nil => simp [lookupB] at h
+  | cons e r ih =>
+    obtain ⟨w, m⟩ := e
+    simp only [lookupB] at h
+    by_cases hw : w = v
+    · simp only [hw, if_true, Option.some.injEq] at h
+      subst h
+      simp [unbind, hw, numsOf]
+    · simp only [hw, if_false] at h
+      cases m with
+      | none =>
+        simp only [numsOf] at hn ⊢
+        simp only [unbind, hw, if_false, numsOf]
+        exact ih hn h
+      | some k =>
+        simp only [numsOf, List.cons_append, List.nodup_cons] at hn
+        have hk : k ≠ n := by
+          intro e
+          subst e
+          exact hn.1 (List.mem_append_left _ (lookupB_num_mem r v k h))
+        simp only [unbind, hw, if_false, numsOf, List.cons_append]
+        rw [List.erase_cons_tail (by simpa using hk)]
+        rw [ih hn.2 h]
+
+theorem numsOf_unbind_none (b : List Binding) (v : Var) (h : lookupB b v = some none) :
+    numsOf (unbind b v) = numsOf b := by
+  induction b with
+  | nil => simp [lookupB] at h
+  | cons e r ih =>
+    obtain ⟨w, m⟩ := e
+    simp only [lookupB] at h
+    by_cases hw : w = v
+    · simp only [hw, if_true, Option.some.injEq] at h
+      subst h
+      simp [unbind, hw, numsOf]
+    · simp only [hw, if_false] at h
+      cases m with
+      | none => simp only [unbind, hw, if_false, numsOf]; exact ih h
+      | some k => simp only [unbind, hw, if_false, numsOf]; rw [ih h]
+
+/-- the kernel table mirrors the operation's table: the same slots in the same order; the numbers open are
+    those bound to the slots followed by the foreign ones `T`, unchanged; no number twice -/
+def KInv (T : List Nat) (st : St) (k : KTab) : Prop :=
+  k.bind.map Prod.fst = st.opn ∧ k.tab = numsOf k.bind ++ T ∧ k.tab.Nodup
+
+theorem kinv_open1 (T : List Nat) (st : St) (k : KTab) (v : Var) (h : KInv T st k) :
+    KInv T (st.open1 v) (k.open1 v) := by
+  obtain ⟨h1, h2, h3⟩ := h
+  refine ⟨by simp [KTab.open1, St.open1, h1], by simp [KTab.open1, numsOf, h2], ?_⟩
+  simp only [KTab.open1, List.nodup_cons]
+  exact ⟨lowestFree_not_mem _, h3⟩
+
+theorem kinv_map1 (T : List Nat) (st : St) (k : KTab) (v : Var) (h : KInv T st k) :
+    KInv T (st.open1 v) (k.map1 v) := by
+  obtain ⟨h1, h2, h3⟩ := h
+  exact ⟨by simp [KTab.map1, St.open1, h1], by simp [KTab.map1, numsOf, h2], by simpa [KTab.map1] using h3⟩
+
+theorem kinv_close1 (T : List Nat) (st : St) (k : KTab) (v : Var) (h : KInv T st k) :
+    KInv T (st.close1 v) (k.close1 v) := by
+  obtain ⟨h1, h2, h3⟩ := h
+  by_cases hv : v ∈ st.opn
+  · have e : st.close1 v = { st with opn := st.opn.erase v, closed := v :: st.closed } := by
+      simp [St.close1, hv]
+    rw [e]
+    obtain ⟨m, hm⟩ := lookupB_mem k.bind v (by rw [h1]; exact hv)
+    cases m with
+    | none =>
+      simp only [KTab.close1, hm]
+      refine ⟨by rw [map_fst_unbind, h1], ?_, h3⟩
+      simp only [numsOf_unbind_none _ _ hm]
+      exact h2
+    | some n =>
+      simp only [KTab.close1, hm]
+      refine ⟨by rw [map_fst_unbind, h1], ?_, h3.erase n⟩
+      simp only
+      rw [numsOf_unbind_some T _ _ _ (by rw [← h2]; exact h3) hm, h2]
+  · have hl := lookupB_none k.bind v (by rw [h1]; exact hv)
+    have e : (st.close1 v).opn = st.opn := by
+      simp only [St.close1, hv, if_false]
+      split <;> rfl
+    simp only [KTab.close1, hl]
+    exact ⟨by rw [e]; exact h1, h2, h3⟩
+
+theorem kinv_applyOk (T : List Nat) (st : St) (k : KTab) (eff : Eff) (h : KInv T st k) :
+    KInv T (st.applyOk eff) (k.applyOk eff) := by
+  cases eff with
+  | none => exact h
+  | opens v => exact kinv_open1 T st k v h
+  | opens2 v w => exact kinv_open1 T _ _ w (kinv_open1 T st k v h)
+  | closes v => exact kinv_close1 T st k v h
+  | maps v => exact kinv_map1 T st k v h
+  | unmaps v => exact kinv_close1 T st k v h
+
+theorem kinv_applyErr (T : List Nat) (st : St) (k : KTab) (eff : Eff) (h : KInv T st k) :
+    KInv T (st.applyErr eff) (k.applyErr eff) := by
+  cases eff with
+  | closes v => exact kinv_close1 T st k v h
+  | none => exact h
+  | opens v => exact h
+  | opens2 v w => exact h
+  | maps v => exact h
+  | unmaps v => exact h
+
+/-- `runK` is `run` with book-keeping: the same outcome, trace, slots on every input -/
+theorem runK_fst : ∀ (n : Nat) (s : Script) (c : Cfg) (k : KTab), (runK n s c k).1 = run n s c := by
+  intro n
+  induction n with
+  | zero => intro s c k; rfl
+  | succ n ih =>
+    intro s c k
+    cases s with
+    | ret ok h => rfl
+    | exits => rfl
+    | execs => rfl
+    | sys name eff ok err =>
+      simp only [runK, run]
+      split <;> first | rfl | exact ih _ _ _
+    | ifVal v t f =>
+      simp only [runK, run]
+      split
+      · split <;> exact ih _ _ _
+      · exact ih _ _ _
+    | ifErr e t f =>
+      simp only [runK, run]
+      split
+      · split <;> exact ih _ _ _
+      · exact ih _ _ _
+    | step name y no =>
+      simp only [runK, run]
+      split <;> first | rfl | exact ih _ _ _
+    | loop body => simp only [runK, run]; exact ih _ _ _
+    | again =>
+      simp only [runK, run]
+      split <;> first | rfl | exact ih _ _ _
+    | exit kk =>
+      simp only [runK, run]
+      split <;> first | rfl | exact ih _ _ _
+    | fork p ch e =>
+      simp only [runK, run]
+      split
+      · rfl
+      · exact ih _ _ _
+      · split <;> exact ih _ _ _
+
+/-- the mirror holds along every run, accepted by the checker or not -/
+theorem runK_inv (T : List Nat) : ∀ (n : Nat) (s : Script) (c : Cfg) (k : KTab),
+    KInv T c.st k → KInv T (runK n s c k).1.cfg.st (runK n s c k).2 := by
+  intro n
+  induction n with
+  | zero => intro s c k h; exact h
+  | succ n ih =>
+    intro s c k h
+    cases s with
+    | ret ok hd => exact h
+    | exits => exact h
+    | execs => exact h
+    | sys name eff ok err =>
+      simp only [runK]
+      split
+      · exact h
+      · exact ih _ _ _ (kinv_applyOk T _ _ eff h)
+      · exact ih _ _ _ (kinv_applyErr T _ _ eff h)
+    | ifVal v t f =>
+      simp only [runK]
+      split
+      · split <;> exact ih _ _ _ h
+      · exact ih _ _ _ h
+    | ifErr e t f =>
+      simp only [runK]
+      split
+      · split <;> exact ih _ _ _ h
+      · exact ih _ _ _ h
+    | step name y no =>
+      simp only [runK]
+      split
+      · exact h
+      · exact ih _ _ _ h
+      · exact ih _ _ _ h
+    | loop body => simp only [runK]; exact ih _ _ _ h
+    | again =>
+      simp only [runK]
+      split
+      · exact h
+      · exact ih _ _ _ h
+    | exit kk =>
+      simp only [runK]
+      split
+      · exact h
+      · exact ih _ _ _ h
+    | fork p ch e =>
+      simp only [runK]
+      split
+      · exact h
+      · exact ih _ _ _ h
+      · split <;> exact ih _ _ _ h
+
 end TinyVerif.FdScript
